@@ -218,8 +218,23 @@ CHECKS.update({
         design="0.3 / 9 C15"),
 })
 
+CHECKS.update({
+    "C04": dict(
+        category="exploration",
+        text="Mostly a bounded exploration, with a small proved core. Proved (contracts on the real handlers, all paths): Django visit_Attribute "
+             "returns F(<owner lookup>.name + '__' + attr); SQLAlchemy-ORM visit_Attribute returns the attribute of the class the traversed "
+             "relationship points to and records that relationship exactly once as a required join (C15 proves the shorthand joins it once; "
+             "C05/C10 the left-nested path; C17 the relative lambda body). Bounded (labelled, not counted): both back ends executed on in-memory "
+             "SQLite over generated three-table databases (NULL foreign keys, empty collections) for 32 filters with to-one paths, any(), "
+             "any(x: p), all(x: p), nested lambdas and and/or/not, against reference semantics.",
+        note="visit_CollectionLambda of both back ends is out of reach of the symbolic executor (model-meta loops, sub-visitor); join kind, join "
+             "promotion under `or`, EXISTS correlation are the ORMs' decisions: bounded only. Findings: SQLAlchemy's INNER JOIN drops parents with a "
+             "NULL foreign key (recorded); Django all() was not negated on Django >= 3.0 (fixed, eb3323b). Designed as not applicable (DESIGN 9).",
+        technique="contracts on the two path handlers (pyvc, external calls uninterpreted); bounded execution of both ORMs on generated databases",
+        design="0.3 / 9 C04"),
+})
+
 NOT_APPLICABLE = {
-    "C04": "join kind, join promotion under `or`, EXISTS correlation and many-to-many expansion are ORM-internal planning decisions (DESIGN section 9)",
 }
 
 PENDING = {
@@ -241,7 +256,7 @@ def main():
             "evidence_file": f"evidence/{pid}.json",
             "replay_cmd_template": f"./vcheck {pid} --replay {{path}}",
             "engine": "pyvc",
-            "level_claimed": {"category": "proof", "text": c["text"], "design_ref": c["design"]},
+            "level_claimed": {"category": c.get("category", "proof"), "text": c["text"], "design_ref": c["design"]},
             "level_note": c["note"],
             "technique": c["technique"],
         })
